@@ -43,12 +43,18 @@ def bootstrap():
     # No regular file is ever created there (library files live on the simulated file system, whose namespace is rooted
     # here), but the links let a workload name one library through a symlinked directory or file, and molli's
     # rwlock() - which resolves paths on the REAL file system - sees the same aliasing as the simulated kernel does.
-    cwd = os.path.join(SANDBOX, "cwd")
+    # The directory is the SAME for every process (it is never written to after the links exist): absolute library
+    # paths, and with them the lock-file names molli derives from them, are then identical in every process that
+    # executes or replays a run.
+    cwd = os.path.join(base, "molli-verif-cwd")
     os.makedirs(cwd, exist_ok=True)
     for link, target in [("ln", ".")] + [(f"lnk_lib{i}.ukv", f"lib{i}.ukv") for i in range(3)]:
         lp = os.path.join(cwd, link)
         if not os.path.islink(lp):
-            os.symlink(target, lp)
+            try:
+                os.symlink(target, lp)
+            except FileExistsError:
+                pass
     os.chdir(cwd)
     owner = os.getpid()
 
@@ -60,6 +66,7 @@ def bootstrap():
     import warnings
 
     warnings.filterwarnings("ignore")
+    _install_atexit_capture()
     if REPO != "/repo":
         # a scratch copy / snapshot of the repository usually lacks the compiled extension (git-ignored): take the one
         # built in /repo, otherwise the source directory molli_xt/ would be imported as an empty namespace package
@@ -74,10 +81,33 @@ def bootstrap():
             sys.modules["molli_xt"] = mod
     import molli  # noqa: F401
 
+    _BOOT["done"] = True
     mf = os.path.abspath(molli.__file__)
     if not mf.startswith(REPO + os.sep):
         raise RuntimeError(f"molli imported from {mf}, expected under {REPO}")
     return SANDBOX
+
+
+# Process-exit hooks that molli registers with the real `atexit` while it is being IMPORTED belong to every process
+# that imports molli - i.e. to every simulated process.  They are captured here and run by the kernel at each simulated
+# process exit.  Hooks molli registers later with the real atexit (outside the patched storage seam, e.g. backends
+# created by C17/C18 on the real file system) are dropped: in a checker process they would only pile up.
+IMPORT_ATEXIT_HOOKS = []
+_BOOT = {"done": False}
+
+
+def _install_atexit_capture():
+    real_register = atexit.register
+
+    def register(fn, *a, **kw):
+        mod = getattr(fn, "__module__", None) or getattr(getattr(fn, "__func__", None), "__module__", "") or ""
+        if mod.startswith("molli"):
+            if not _BOOT["done"]:
+                IMPORT_ATEXIT_HOOKS.append((fn, a, kw))
+            return fn
+        return real_register(fn, *a, **kw)
+
+    atexit.register = register
 
 
 def repo_head() -> str:
